@@ -241,9 +241,9 @@ def shrink_bucket(
     prop = load_property(prop_id)
     part = prop.part(part_name)
     if part.enumerate(tier, 0, 1) is not None:
-        return fallback
+        return fallback, None
     t0 = time.monotonic()
-    best: t.Dict[str, t.Any] = {"case": None, "repr": None}
+    best: t.Dict[str, t.Any] = {"case": None, "repr": None, "detail": None}
 
     class _Hit(Exception):
         pass
@@ -255,9 +255,11 @@ def shrink_bucket(
         ctx = Ctx(part_name)
         ctx._case = case
         vs = part.check(case, ctx)
-        if any(v.key == key for v in vs):
+        hit = [v for v in vs if v.key == key]
+        if hit:
             best["case"] = case
             best["repr"] = repr(case)
+            best["detail"] = hit[0].detail
             raise _Hit()
 
     @hypothesis.seed(sseed)
@@ -272,7 +274,9 @@ def shrink_bucket(
         pass
     except BaseException:
         pass
-    return best["case"] if best["case"] is not None else fallback
+    if best["case"] is not None:
+        return best["case"], best["detail"]
+    return fallback, None
 
 
 # ---------------------------------------------------------------------------------------
